@@ -102,6 +102,53 @@ def class_re(items, ascii_digits=False):
     return r
 
 
+FLAGS = [0]  # re flags of the pattern being translated (IGNORECASE etc. handled by brute-force class extraction)
+_class_cache = {}
+
+
+def class_by_probe(pat_text, flags):
+    """Exact single-character class of `pat_text` under `flags`, by asking CPython's re for every code point
+    of the model's character range (no reasoning about case folding is trusted)."""
+    key = (pat_text, flags, ASCII_MODE[0])
+    if key not in _class_cache:
+        rx = re.compile(pat_text, flags)
+        hi = 127 if ASCII_MODE[0] else MAXCHAR
+        _class_cache[key] = unicode_ranges_upto(lambda c: rx.fullmatch(c) is not None, hi)
+    return union(rng(a, b) for a, b in _class_cache[key])
+
+
+def unicode_ranges_upto(pred, hi):
+    out, start = [], None
+    for cp in range(hi + 1):
+        if pred(chr(cp)):
+            if start is None:
+                start = cp
+        elif start is not None:
+            out.append((start, cp - 1))
+            start = None
+    if start is not None:
+        out.append((start, hi))
+    return out
+
+
+def class_text(items):
+    parts = []
+    for op, av in items:
+        if op is sre_c.NEGATE:
+            parts.insert(0, "^")
+        elif op is sre_c.LITERAL:
+            parts.append(re.escape(chr(av)))
+        elif op is sre_c.RANGE:
+            parts.append(re.escape(chr(av[0])) + "-" + re.escape(chr(av[1])))
+        elif op is sre_c.CATEGORY:
+            parts.append({sre_c.CATEGORY_DIGIT: "\\d", sre_c.CATEGORY_SPACE: "\\s", sre_c.CATEGORY_WORD: "\\w",
+                          sre_c.CATEGORY_NOT_DIGIT: "\\D", sre_c.CATEGORY_NOT_SPACE: "\\S",
+                          sre_c.CATEGORY_NOT_WORD: "\\W"}[av])
+        else:
+            raise Unsupported(f"regex class item {op}")
+    return "[" + "".join(parts) + "]"
+
+
 ASCII_MODE = [False]  # set by the executor while translating for a contract whose strings are proved ASCII
 
 
@@ -129,6 +176,10 @@ def seq_re(items):
 
 def item_re(item):
     op, av = item
+    if FLAGS[0] and op in (sre_c.LITERAL, sre_c.NOT_LITERAL, sre_c.IN, sre_c.ANY):
+        text = {sre_c.LITERAL: lambda: re.escape(chr(av)), sre_c.NOT_LITERAL: lambda: "[^" + re.escape(chr(av)) + "]",
+                sre_c.IN: lambda: class_text(av), sre_c.ANY: lambda: "."}[op]()
+        return class_by_probe(text, FLAGS[0])
     if op is sre_c.LITERAL:
         return rng(av, av)
     if op is sre_c.NOT_LITERAL:
@@ -166,8 +217,18 @@ def parse(pattern):
 class Compiled:
     """Top-level view of a pattern: items (each a z3 regex), group -> item index, trailing look-ahead."""
 
-    def __init__(self, pattern):
+    def __init__(self, pattern, flags=0):
         self.pattern = pattern
+        self.flags = flags
+        if flags & ~(re.IGNORECASE | re.DOTALL | re.ASCII | re.UNICODE):
+            raise Unsupported(f"regex flags {flags}")
+        FLAGS[0] = flags
+        try:
+            self._build(pattern)
+        finally:
+            FLAGS[0] = 0
+
+    def _build(self, pattern):
         items = parse(pattern)
         self.neg_lookahead = None
         self.at_end = False
@@ -228,23 +289,23 @@ def _walk(items):
 _compiled = {}
 
 
-def compiled(pattern):
-    key = (pattern, ASCII_MODE[0])
+def compiled(pattern, flags=0):
+    key = (pattern, flags, ASCII_MODE[0])
     if key not in _compiled:
-        _compiled[key] = Compiled(pattern)
+        _compiled[key] = Compiled(pattern, flags)
     return _compiled[key]
 
 
-def do_match(ex, pattern, s, line, mode="match"):
+def do_match(ex, pattern, s, line, mode="match", flags=0):
     """re.match / fullmatch of `pattern` against value s; returns ReMatch or None (forks)."""
     if isinstance(s, str):
-        m = {"match": re.match, "fullmatch": re.fullmatch, "search": re.search}[mode](pattern, s)
+        m = {"match": re.match, "fullmatch": re.fullmatch, "search": re.search}[mode](pattern, s, flags)
         if m is None:
             return None
         return ReMatch([m.group(0)] + list(m.groups()), m.group(0))
     if mode == "search":
         raise Unsupported("re.search on a symbolic string")
-    cp = compiled(pattern)
+    cp = compiled(pattern, flags)
     st = s.t
     lang = cp.whole
     if cp.neg_lookahead is not None:
@@ -282,7 +343,7 @@ def do_match(ex, pattern, s, line, mode="match"):
 
 def pattern_method(ex, pat, name, args, kwargs, line):
     if name in ("match", "fullmatch", "search"):
-        return do_match(ex, pat.pattern, args[0], line, name)
+        return do_match(ex, pat.pattern, args[0], line, name, pat.flags)
     raise Unsupported(f"Pattern.{name}")
 
 
